@@ -201,9 +201,17 @@ def gen_type(rng, depth=0):
     return w % tuple(gen_type(rng, depth + 1) for _ in range(w.count("%s")))
 
 
-def deep_type(rng, n):
-    k = rng.randrange(7)
-    inner = rng.choice(["T", "i32", "Backtrace", "dyn Tr<T>"])
+def deep_type(rng, n, k=None, inner=None):
+    k = rng.randrange(7) if k is None else k
+    inner = inner or rng.choice(["T", "i32", "Backtrace", "dyn Tr<T>"])
+    if k == 7:
+        return "dyn Tr<" * n + inner + ">" * n
+    if k == 8:
+        return "Tr<X = " * n + inner + ">" * n
+    if k == 9:
+        return "dyn Fn(" * n + inner + ")" * n
+    if k == 10:
+        return "<" * n + inner + " as Tr>::X" * n
     if k == 0:
         return "Box<" * n + inner + ">" * n
     if k == 1:
@@ -812,6 +820,16 @@ def run(tier, seed, replay):
                 for _ in range(1 if quick else 3):
                     cases.append((trait, g.item(trait, declared, rng.choice(["tuple", "named", "enum"]), p_attr=0.1, deep=dep),
                                   "deep:%d" % dep))
+        # every recursive arm of utils::is_type_parameter_used_in_type / fmt::contains_generics / GenericsSearch, with the
+        # type parameter innermost (derive(Error) infers the source bound, Display/Debug/AsRef look for generics)
+        for k in range(11):
+            for dep in ([2000] if quick else depths):
+                ty = deep_type(rng, dep, k, "T")
+                cases.append(("Error", "struct E<T>(#[error(source)] %s);" % ty, "deep:%d" % dep))
+                cases.append(("Error", "enum E<T> { V { source: %s, b: Backtrace } }" % ty, "deep:%d" % dep))
+                cases.append(("Display", "#[display(\"{_0:?}\")] struct E<T>(%s);" % ty, "deep:%d" % dep))
+                cases.append(("Debug", "struct E<T>(%s);" % ty, "deep:%d" % dep))
+                cases.append(("AsRef", "#[as_ref(forward)] struct E<T>(%s);" % ty, "deep:%d" % dep))
         run_batch(cases, timeout=10 + 20, chunk=8)
 
     # ---- a new / unclassified site: fuzz harder around it
